@@ -144,6 +144,15 @@ def run_impl(case):
         menu_calls(M, case)
     except C.PurityError as ex:
         checks.append(str(ex))
+    # ---- the info dictionary and the model rebuilt from it are independent of each other and of M, in both directions
+    import copy
+    info_ref = copy.deepcopy(info)
+    M2[(C.POOL[2],) if not case["kind"].endswith("Matrix") else (2,)] += 1      # a new variable: mapping grows
+    still("the round-trip copy")
+    if info != info_ref:
+        checks.append("changing the model rebuilt by create_from_info changed the info dictionary it was built from")
+    M3 = qv.utils.create_from_info(info)
+    ref3 = C.snapshot(M3)
     info['terms'][()] = 12345
     if info.get('mapping') is not None:
         info['mapping']['mutant'] = 99
@@ -151,8 +160,23 @@ def run_impl(case):
         for P in lst:
             P[()] += 1
     still("get_info's result")
-    M2[(C.POOL[2],) if not case["kind"].endswith("Matrix") else (2,)] += 1
-    still("the round-trip copy")
+    if C.snapshot(M3) != ref3:
+        checks.append("mutating the info dictionary changed the model create_from_info built from it")
+    # ---- set_mapping / set_reverse_mapping copy what they are given
+    if hasattr(M, "set_mapping"):
+        for setter, getter in (("set_mapping", "mapping"), ("set_reverse_mapping", "reverse_mapping")):
+            M4 = M.copy()
+            arg = dict(getattr(M4, getter))
+            arg_ref = dict(arg)
+            getattr(M4, setter)(arg)
+            M4[('fresh-label',)] += 1
+            if arg != arg_ref:
+                checks.append("%s keeps the caller's dictionary: a new variable of the model was written into it" % setter)
+            before = dict(getattr(M4, getter))
+            arg['mutant'] = 99
+            if getattr(M4, getter) != before:
+                checks.append("%s keeps the caller's dictionary: changing it afterwards changed the model's %s" % (setter, getter))
+        still("set_mapping on a copy")
     out["checks"] = checks
     return out
 
